@@ -147,7 +147,30 @@ Proof.
     rewrite Ecoords, (rm_offset_digits dims NC u Hu').
     unfold getn. rewrite (nth_map_lt _ _ _ _ 0) by (rewrite seq_length; exact Ho).
     rewrite seq_nth by exact Ho. cbn [Nat.add].
-    fold rs. rewrite (ref_fwd counts HR o Ho). rewrite (fwd_blocks counts o HR Ho). lia.
+    unfold rs. rewrite (ref_fwd counts HR o Ho). rewrite (fwd_blocks counts o HR Ho). lia.
 Qed.
+
+(* boolean sweep of the three conjuncts over every position t *)
+Definition address_check (counts : list (list nat)) : bool :=
+  let '(len, fwd, rev, idx) := indexes counts in
+  forallb (fun t =>
+    let o := getn rev t in
+    (o <? length (hd [] counts)) &&
+    forallb (fun d => getn (nth d idx []) t <? getn (nth d counts []) o) (seq 0 (length counts)) &&
+    (getn fwd o + rm_offset (column o counts) (map (fun row => getn row t) idx) =? t)) (seq 0 len).
+
+Example indexes_address_ex :
+  let counts := [[2; 0; 3]; [1; 4; 2]] in
+  address_check counts = true /\
+  (* position t = 5 : object 2, coordinates (1, 1) inside shape (3, 2), 2 + (1 * 2 + 1) = 5 *)
+  (let '(len, fwd, rev, idx) := indexes counts in
+   len = 8 /\ getn rev 5 = 2 /\ map (fun row => getn row 5) idx = [1; 1] /\ column 2 counts = [3; 2] /\
+   getn fwd 2 = 2 /\ rm_offset [3; 2] [1; 1] = 3).
+Proof. vm_compute. repeat split; reflexivity. Qed.
+
+Example indexes_address_sweeps :
+  address_check [[2; 0; 3]; [1; 4; 2]; [3; 1; 2]] = true /\ address_check [[2; 0; 3]] = true /\
+  address_check [[0; 0]] = true.
+Proof. vm_compute. repeat split; reflexivity. Qed.
 
 Print Assumptions indexes_address.
